@@ -54,8 +54,12 @@ def run(workdir, root, cfg_text, root_text=None, workers=16, simulate=None, dept
         f.write(cfg_text)
     meta = os.path.join(workdir, "meta-" + root)
     shutil.rmtree(meta, ignore_errors=True)
+    # TLC unpacks its standard modules into java.io.tmpdir on every run: keep that litter inside the check's own
+    # work directory (removed when the check finishes) instead of /tmp
+    jtmp = os.path.join(workdir, "jtmp")
+    os.makedirs(jtmp, exist_ok=True)
     jopts = ["-XX:+UseParallelGC", "-XX:ParallelGCThreads=2", "-Xms512m", "-Xmx" + heap,
-             "-DTLA-Library=" + SPECS]
+             "-DTLA-Library=" + SPECS, "-Djava.io.tmpdir=" + jtmp]
     if dfs:
         jopts.append("-Dtlc2.tool.queue.IStateQueue=StateDeque")
     cmd = ["java"] + jopts + ["-cp", JAR + ":" + DEPS, "tlc2.TLC",
